@@ -23,10 +23,10 @@ import (
 // World is everything one trace runs against.
 type World struct {
 	fillSeq int64
-	cfg    J
-	driver string
-	dir    string
-	seed   int64
+	cfg     J
+	driver  string
+	dir     string
+	seed    int64
 
 	names *Names
 	money Money
